@@ -420,7 +420,9 @@ def filter_mc_sharemem(filename, step_size, box_size, cores, shape,
             method = 'fork'
         ctx = multiprocessing.get_context(method)
         barrier = ctx.Barrier(parties=len(ymaxs))
-        pool = ctx.Pool(processes=cores, maxtasksperchild=1,
+        # the stripes synchronise on the barrier, so they all have to run at
+        # the same time: never fewer processes than stripes
+        pool = ctx.Pool(processes=max(cores, len(ymaxs)), maxtasksperchild=1,
                         initializer=init, initargs=(barrier, memory_id))
         try:
             # chunksize=1 ensures that we only send a single task to each
